@@ -18,6 +18,10 @@ _OW_ASSUME = COMMON_ASSUME + [
     "tokio task scheduling is abstracted to 'any order' (proved equivalent); failed transfers (non-zero exit) are outside the compared postcondition",
 ]
 _OW_TB = ["the real `copia` binary built from the tree under test; tools/sshstub/ssh as SSH stand-in"]
+_HUB_ASSUME = COMMON_ASSUME + [
+    "served tree without symlinks and without file/directory clashes; one server process per session (interleavings are C03/C10)",
+]
+_HUB_TB = ["the real `copia serve` built from the tree under test, driven over its stdin/stdout by tools/bb_hub.py"]
 _BI_ASSUME = COMMON_ASSUME + [
     "regular files only, no file/directory clashes, single host, names not ending in the staging suffix; contents are identified with their BLAKE3 (collision-freeness)",
     "a copy whose source vanished mid-run is modelled as 'stop before this action' (partial conflict-copy writes are not modelled)",
@@ -81,6 +85,26 @@ PROPS = {
                    "Tie: real immediate second runs in all three directions with mtimes 0, sub-second, year 3000: plan must be 0/0 and both trees byte- and mtime-identical.",
         level_note="Model-level proof + black-box second runs; floor-of-mtime through each writer/reader pair is validated, not proved.",
         technique="Lean 4 proof over the run model + black-box second-run correspondence",
+    ),
+    "C11": dict(
+        modules=["Copia.Props.C11"], namespaces=["Copia.C11"], runner="bb", bb_module="bb_hub",
+        assumptions=_HUB_ASSUME, trusted_base=_HUB_TB,
+        level_text="Kernel-checked theorems for ALL path strings: a path accepted by safe_join (Rust Path::components semantics) joined onto the root resolves — by the kernel's lexical walk — under the root; "
+                   "so do its staging name and its conflict-copy name (suffixes appended to the string); a path is refused exactly when it is absolute or has a `..` component. "
+                   "Tie: path strings from the property's grammar sent as Get/Put/Delete to a real server under strace; every path argument of every file-system call is resolved and must lie under the root; "
+                   "sentinels outside the root unchanged; refusal/acceptance compared with the model; a following Get must still be answered.",
+        level_note="Trusts Lean's kernel, the model of Path::components / string join, strace's view of the syscalls, no symlinks in the served tree.",
+        technique="Lean 4 proof (induction over path components) + syscall-trace correspondence",
+    ),
+    "C12": dict(
+        modules=["Copia.Props.C12"], namespaces=["Copia.C12"], runner="bb", bb_module="bb_hub",
+        assumptions=_HUB_ASSUME + ["CBOR decoding of a frame body is a parameter of the model (table supplied by the harness from the real ciborium + wire.rs types); ciborium's own allocation/recursion limits are observed under ulimit -v, not proved"],
+        trusted_base=_HUB_TB,
+        level_text="Kernel-checked theorems for ALL input byte strings: every control-frame buffer ≤ MAX_FRAME; no reply and no tree change without a complete correct prologue; an error reply leaves the tree untouched and the loop "
+                   "continues exactly behind the request (and behind a refused Put's content) — the re-sync lemma; EOF inside a body ends the session without effect. Totality/termination by construction (fuel = input length). "
+                   "Tie: hundreds of byte streams (valid sessions and their mutations, hostile length prefixes and CBOR, every kind of cut) fed to a real server under ulimit -v and a timeout; replies, exit status, resulting tree compared.",
+        level_note="Trusts Lean's kernel, the framing/handler model, the harness's CBOR codec, the real ciborium for the decode table.",
+        technique="Lean 4 proof over a fuel-bounded serve loop + byte-stream correspondence against the real server",
     ),
     "C05": dict(
         modules=["Copia.Props.C05"], namespaces=["Copia.C05"], runner="rust", needs_cli=True,
